@@ -29,6 +29,7 @@ type c20Op struct {
 	Index uint32 `json:"index,omitempty"`
 	Len   int    `json:"len,omitempty"`
 	K     uint32 `json:"k,omitempty"`
+	Hot   bool   `json:"hot,omitempty"` // reload: the new message already contains the pre-load items
 }
 
 type c20Case struct {
@@ -73,6 +74,7 @@ type c20Input struct {
 	op   c20Op
 	data []byte
 	tx   *builtTx
+	hot  [][]byte // items a hot reload message is pre-filled with
 }
 
 func c20ItemBytes(c c20Case, op c20Op) []byte {
@@ -102,7 +104,11 @@ func stepModel(s bloomState, in c20Input, tweak uint32) (out bool, hasOut bool, 
 	case "isloaded":
 		return m.loaded, true, s
 	case "reload":
-		return false, false, fromRef(newRefBloom(in.op.Len, in.op.K, tweak, s.flags))
+		nm := newRefBloom(in.op.Len, in.op.K, tweak, s.flags)
+		for _, it := range in.hot {
+			nm.add(it)
+		}
+		return false, false, fromRef(nm)
 	case "unload":
 		m.loaded = false
 		m.bits = nil
@@ -144,7 +150,7 @@ func evalC20(c c20Case, o *Obs) error {
 		wrapped[i] = bchutil.NewTx(b.msg)
 		wrapped[i].Hash() // pre-compute: the harness itself must not race on the hash cache
 	}
-	hasReload, hasTx := false, false
+	hasReload, hasTx, hasAdd := false, false, false
 	writers, readers := 0, 0
 	inputs := make([][]c20Input, len(c.Progs))
 	for g, prog := range c.Progs {
@@ -157,6 +163,11 @@ func evalC20(c c20Case, o *Obs) error {
 				}
 				hasReload = true
 				writers++
+				if op.Hot {
+					for i := 0; i < c.Preload && i < len(c.Items); i++ {
+						in.hot = append(in.hot, c.Items[i])
+					}
+				}
 			case "unload":
 				hasReload = true
 				writers++
@@ -169,6 +180,7 @@ func evalC20(c c20Case, o *Obs) error {
 				writers++
 			case "add", "addhash", "addoutpoint":
 				writers++
+				hasAdd = true
 			default:
 				readers++
 			}
@@ -199,6 +211,13 @@ func evalC20(c c20Case, o *Obs) error {
 			for i, op := range prog {
 				if op.Op == "reload" {
 					reloadMsgs[g][i] = wire.NewMsgFilterLoad(make([]byte, op.Len), op.K, c.Tweak, wire.BloomUpdateType(c.Flags))
+					if op.Hot { // pre-filled by the harness before the goroutines start
+						hm := newRefBloom(op.Len, op.K, c.Tweak, c.Flags)
+						for _, it := range inputs[g][i].hot {
+							hm.add(it)
+						}
+						copy(reloadMsgs[g][i].Filter, hm.bits)
+					}
 				}
 			}
 		}
@@ -256,6 +275,20 @@ func evalC20(c c20Case, o *Obs) error {
 					overlaps++
 				}
 			}
+		}
+		if hasReload && !hasAdd && c.K >= 1 {
+			// (5) programs without insertions: a message that was loaded empty ("cold") can never match anything
+			// in any sequential order of the calls, so nothing may ever be written into it
+			for g := range reloadMsgs {
+				for i, m := range reloadMsgs[g] {
+					if m != nil && !c.Progs[g][i].Hot && !allZero(m.Filter) {
+						return fmt.Errorf("a filter message that was loaded empty has bits set (%x) although the program contains no insertion: "+
+							"an update computed against another message was written into it (no sequential order of the calls explains this); program %s",
+							clip(m.Filter), progString(c))
+					}
+				}
+			}
+			o.Class("C20:cold-message-invariant-checked")
 		}
 		if !hasReload {
 			// (3) nothing lost: every insertion is visible, bits are the OR of all insertions
@@ -401,6 +434,33 @@ func genC20(t *rapid.T) c20Case {
 		g, maxOps = rapid.SampledFrom([]int{2, 4, 8, 16, 32}).Draw(t, "g"), 40
 	}
 	withReload := rapid.IntRange(0, 2).Draw(t, "reload") == 0
+	if !c.Linear && rapid.IntRange(0, 3).Draw(t, "hotcold") == 0 {
+		// family: several goroutines match transactions while one keeps swapping a pre-filled ("hot") and an
+		// empty ("cold") message in and out; no insertions at all
+		c.Flags = 1
+		if c.Preload == 0 {
+			c.Preload = 2
+		}
+		g = rapid.SampledFrom([]int{3, 5, 9}).Draw(t, "hcg")
+		for i := 0; i < g-1; i++ {
+			var prog []c20Op
+			for j := rapid.IntRange(20, 40).Draw(t, "hcn"); j > 0; j-- {
+				op := c20Op{Op: "matchtx", Item: rapid.IntRange(0, 5).Draw(t, "item")}
+				if rapid.IntRange(0, 5).Draw(t, "q") == 0 {
+					op.Op = "matches"
+				}
+				prog = append(prog, op)
+			}
+			c.Progs = append(c.Progs, prog)
+		}
+		var rl []c20Op
+		for j := 0; j < 40; j++ {
+			rl = append(rl, c20Op{Op: "reload", Len: c.Len, K: c.K, Hot: j%2 == 1})
+		}
+		c.Progs = append(c.Progs, rl)
+		c.Reps = pick(10, 40)
+		return c
+	}
 	for i := 0; i < g; i++ {
 		var prog []c20Op
 		n := rapid.IntRange(3, maxOps).Draw(t, "nops")
@@ -426,6 +486,7 @@ func genC20(t *rapid.T) c20Case {
 				op.Op = "isloaded"
 			case r < 19 && withReload:
 				op.Op, op.Len, op.K = "reload", rapid.IntRange(8, 64).Draw(t, "rlen"), uint32(rapid.IntRange(1, 5).Draw(t, "rk"))
+				op.Hot = rapid.Bool().Draw(t, "hot")
 			case withReload:
 				op.Op = "unload"
 			default:
@@ -564,6 +625,6 @@ func TestC20(t *testing.T) {
 		kC20.Run(t, ev, perShard(pick(300, 40000)))
 		kC20GCS.Run(t, ev, perShard(pick(60, 6000)))
 		ev.requireClasses("C20:overlapping-calls-observed", "C20:linearizable", "C20:with-reload-or-unload", "C20:with-matchtx",
-			"C20:goroutines=32", "C20:gcs-concurrent-queries")
+			"C20:goroutines=32", "C20:gcs-concurrent-queries", "C20:cold-message-invariant-checked")
 	})
 }
